@@ -53,7 +53,7 @@ def _scratch() -> str:
 def _parse_printed(out: str) -> list:
     """Collect values printed as  <<"TAG", ...>>  (possibly pretty-printed over several lines)."""
     res = []
-    for m in re.finditer(r'^<<"', out, re.M):
+    for m in re.finditer(r'^<<\s*"', out, re.M):
         try:
             v, _ = parse_tla_value(out, m.start(), prefix=True)
             res.append(v)
@@ -334,6 +334,12 @@ def validate_traces(spec: str, traces: list, *, consts: str = '', shards: int = 
                 v.accepted = False
         if 'TRACECHECK-DONE' not in r.out:
             raise MachineryError(f'trace validation of {spec} did not finish:\n{r.out[-4000:]}')
+        summ = [p for p in r.printed if p and p[0] == 'SUMMARY']
+        nrej = sum(1 for p in r.printed if p and p[0] == 'REJ')
+        if not summ or summ[-1][1] != len(chunks[k]) or summ[-1][2] != nrej:
+            raise MachineryError(
+                f'trace validation of {spec}: summary {summ} does not match the parsed verdicts '
+                f'({len(chunks[k])} traces, {nrej} REJ records)')
         for t in range(1, len(chunks[k]) + 1):
             v = local.get(t) or TraceVerdict(idx[k][t - 1], True, 0)
             verdicts[v.tid] = v
